@@ -105,9 +105,10 @@ def run(ck):
     def sim(k, scale, maxw, num, hist):
         c = consts(scale, maxw, maxhist=hist)
         cfg = vlib.cfg_with(sw, "ByteBufferImpl_sim.cfg", c)
-        r = vlib.tlc(sw, "ByteBufferImpl", cfg, workers=1, simulate=num, depth=hist + 2,
+        nw = 1 if quick else 4      # one weighted random action per step (SimStep); the seed fixes the histories per worker count
+        r = vlib.tlc(sw, "ByteBufferImpl", cfg, workers=nw, simulate=num, depth=hist + 2,
                      seed=ck.seed * 1000 + k, timeout=1800)
-        if r.violated or (r.error and "timeout" in r.error):
+        if r.violated or r.error:
             raise vlib.Inconclusive("ByteBufferImpl simulation %s: %s\n%s" % (scale, r.violated or r.error, r.tail()))
         ck.add_tlc("ByteBufferImpl random simulation", r, c, exhaustive=False)
         name = "sim_%s_%d" % (scale, k)
@@ -119,10 +120,10 @@ def run(ck):
         _validate(ck, sw, name, beh, "random histories, %s, %d tokens, %d steps" % (scale, maxw, hist))
 
     if quick:
-        jobs = [(strict, ("k1zero", 6)), (strict, ("k200new", 5)),
-                (cover, ("k1zero", 4)), (cover, ("k200new", 3)),
-                (sim, (1, "k1zero", 14, 700, 40)), (sim, (2, "k200new", 10, 500, 40)),
-                (sim, (3, "k1new", 14, 300, 40))]
+        # the cover runs are the exhaustive runs of this tier (invariants checked, monitor rejections listed)
+        jobs = [(cover, ("k1zero", 4)), (cover, ("k200new", 3)),
+                (sim, (1, "k1zero", 16, 400, 50)), (sim, (2, "k200new", 10, 300, 50)),
+                (sim, (3, "k1new", 16, 200, 50))]
     else:
         jobs = [(strict, ("k1zero", 8)), (strict, ("k200new", 7)), (strict, ("k1new", 6)),
                 (cover, ("k1zero", 6)), (cover, ("k200new", 5)), (cover, ("k1new", 4, False)),
